@@ -138,6 +138,7 @@ class TwoEndedLink(link.Link):
             old.remove_from_link(self)
         if new is not None:
             new.add_to_link(self)
+        self._invalidate_ends()
 
     def other(self, end: Vertex) -> Vertex | None:
         """
